@@ -277,7 +277,10 @@ def lifetime_time_table(prog, chk):
         for b, i, c in fn.calls():
             for j, a in enumerate(c["a"]):
                 A = fn.deep(a)
-                if not isinstance(A, dict) or (strip(A).get("t") or "") != "time_t":
+                top = A
+                while isinstance(top, dict) and top.get("k") == "paren":
+                    top = top["e"]
+                if not isinstance(top, dict) or "time_t" not in (top.get("t") or "", strip(top).get("t") or ""):
                     continue
                 if not any(m.get("k") == "call" and m.get("fn") == "KSI_Integer_getUInt64" for m in walk(A)):
                     continue
